@@ -47,21 +47,23 @@ type vReq struct {
 // vSyncer is the model syncer (DESIGN.md B.1): go-ipld-prime selector
 // semantics over a linear chain. chain[0] is the newest block.
 type vSyncer struct {
-	global    []int // shared [running, max running] across syncers (for C08)
-	chain     []cid.Cid
-	peerID    peer.ID
-	hook      func(peer.ID, cid.Cid) // the subscriber's scoped block hook dispatcher
-	reqs      []vReq
-	headErr   error
-	faultErr  error // the error an injected fault returns (nil: errModelFault)
-	failSync  int   // fail the k-th Sync call (1-based); 0 = never
-	failAt    int   // within the failing call: fail when about to visit the j-th block (1-based)
-	syncs     int
-	noHead    bool
-	yield     bool
-	gate      chan struct{} // if set, Sync waits here until the gate opens or its context is cancelled (a stalled publisher)
-	active    int           // number of Sync calls in progress (for C08)
-	maxActive int
+	global  []int // shared [running, max running] across syncers (for C08)
+	chain   []cid.Cid
+	peerID  peer.ID
+	hook    func(peer.ID, cid.Cid) // the subscriber's scoped block hook dispatcher
+	reqs    []vReq
+	headErr error
+	// headQueries: number of GetHead calls (a sync that queried the head was admitted and is running)
+	headQueries int
+	faultErr    error // the error an injected fault returns (nil: errModelFault)
+	failSync    int   // fail the k-th Sync call (1-based); 0 = never
+	failAt      int   // within the failing call: fail when about to visit the j-th block (1-based)
+	syncs       int
+	noHead      bool
+	yield       bool
+	gate        chan struct{} // if set, Sync waits here until the gate opens or its context is cancelled (a stalled publisher)
+	active      int           // number of Sync calls in progress (for C08)
+	maxActive   int
 }
 
 func (m *vSyncer) pos(c cid.Cid) int {
@@ -74,6 +76,12 @@ func (m *vSyncer) pos(c cid.Cid) int {
 }
 
 func (m *vSyncer) GetHead(ctx context.Context) (cid.Cid, error) {
+	unlock := ghostLock()
+	m.headQueries++
+	unlock()
+	if m.yield {
+		verif_Yield() // (a head query takes time: other goroutines may run meanwhile)
+	}
 	if m.headErr != nil {
 		return cid.Undef, m.headErr
 	}
